@@ -112,6 +112,11 @@ def main():
     facts.append("Definition rescale_prob_clamped_to_one : bool := %s." %
                  ("true" if re.search(r"fn\s+rescale_prob[^}]*rescale\(prob,\s*rng\)\s*\.min\(\s*1\.0\s*\)", ma) else "false"))
 
+    mu = strip_comments(read_nontest("mutation.rs"))
+    need(r"let\s+key\s*=\s*path_node_ctx\.next_key\(\)\s*;", mu, "key allocation in mutate_anon_map")
+    reg = re.search(r"path_node_ctx\.on_keys_seen\(\s*value_map\.keys\(\)\s*\)\s*;\s*let\s+key\s*=\s*path_node_ctx\.next_key\(\)\s*;", mu)
+    facts.append("Definition map_keys_registered_before_next_key : bool := %s." % ("true" if reg else "false"))
+
     su = strip_comments(read_nontest("spec_util.rs"))
     m = need(r"const\s+BUILT_IN_TYPE_NAMES\s*:\s*&\[&str\]\s*=\s*&\[(.*?)\];", su, "BUILT_IN_TYPE_NAMES")
     names = re.findall(r'"([^"]*)"', m.group(1))
@@ -128,7 +133,7 @@ def main():
     facts.append('Definition csv_header : string := "%s".' % m.group(1).replace("\\n", ""))
 
     text = ("(* GENERATED by tools/gen_facts.py from %s/src on every run. Do not edit. *)\n"
-            "From Coq Require Import ZArith NArith String List.\nImport ListNotations.\nOpen Scope string_scope.\n\n" % REPO
+            "From Coq Require Import ZArith NArith String List.\nImport ListNotations.\nLocal Open Scope string_scope.\n\n" % REPO
             + "\n".join(facts) + "\n")
     out = os.path.normpath(OUT)
     old = None
